@@ -39,7 +39,7 @@ package ledger
 // sha256 and encoding/json are outside the verifier, so the digest is the uninterpreted hashOf
 //@ func (*ledger.ChainedLog).ComputeHash
 //@   requires l != nil
-//@   ensures l.Hash == hashOf(ite(previous == nil, l.Hash[:0], previous.Hash), previous != nil, old(l.Log), ite(old(l.ID) == nil, 0, val(old(l.ID)))) && l.Log == old(l.Log) && l.ID == old(l.ID) && l.Projected == old(l.Projected)
+//@   ensures l.Hash == hashOf(ite(previous == nil, l.Hash[:0], previous.Hash), previous != nil, old(l.Log), ite(old(l.ID) == nil, 0, val(old(l.ID))), old(deref(txOfLog(l.Data)))) && l.Log == old(l.Log) && l.ID == old(l.ID) && l.Projected == old(l.Projected)
 //@   ensures forall r *ChainedLog :: r != l ==> r.Hash == old(r.Hash)
 //@   modifies ChainedLog.Hash
 //@   trusted sha256 and encoding/json are library code; what is assumed is that the digest depends on nothing else
@@ -50,7 +50,7 @@ package ledger
 //@   ensures ret != nil && ret.Log == deref(l) && ret.ID != nil
 //@   ensures previous == nil ==> val(ret.ID) == 0
 //@   ensures previous != nil ==> val(ret.ID) == val(previous.ID) + 1
-//@   ensures ret.Hash == hashOf(ite(previous == nil, ret.Hash[:0], previous.Hash), previous != nil, deref(l), 0)
+//@   ensures ret.Hash == hashOf(ite(previous == nil, ret.Hash[:0], previous.Hash), previous != nil, deref(l), 0, old(deref(txOfLog(l.Data))))
 //@   ensures previous != nil ==> deref(previous) == old(deref(previous))
 //@   modifies ChainedLog.Hash
 //@   property C05
@@ -83,6 +83,14 @@ package ledger
 //@   nopanic
 //@   property C10
 
+// C13: what the stored JSON form of an entry carries -- every field of the payloads and of what they contain (a field that is
+// unexported or tagged "-" would not survive the round trip, and the re-computed hash would differ)
+//@ jsonfields ledger.NewTransactionLogPayload // C13
+//@ jsonfields ledger.RevertedTransactionLogPayload // C13
+//@ jsonfields ledger.SetMetadataLogPayload // C13
+//@ jsonfields ledger.DeleteMetadataLogPayload // C13
+//@ jsonfields ledger.TransactionData // C13
+//@ jsonfields ledger.Posting // C13
 // ---- C13: every kind of log the system writes can be read back
 // the name of every declared log type is non-empty and maps back to the same type
 //@ func (ledger.LogType).String
